@@ -29,6 +29,11 @@ def run(ctx):
         facts = ctx.facts("core.cpp", cfg)
         r1(ctx, facts, cfg)
         r2(ctx, facts, cfg)
+        from rules import c02
+        bn = {m.base: m for m in facts.fns if m.config == cfg and m.cls == c02.CLS and not m.rec.get("ctor") and not m.rec.get("dtor")}
+        if "empty" not in bn:
+            raise AnalysisBroken("UnboundedSPSCQueue::empty not found")
+        c02.check_empty_semantics(ctx, bn, rule="C07.R1e")
         r3_r5(ctx, facts, cfg)
         r4(ctx, facts, cfg)
 
